@@ -6,6 +6,7 @@ import (
 	"strings"
 	"sync"
 
+	"github.com/AdguardTeam/urlfilter/filterutil"
 	"github.com/AdguardTeam/urlfilter/rules"
 	"golang.org/x/net/publicsuffix"
 
@@ -87,6 +88,23 @@ func c17CheckURL(c *Ctx, u string, srcHosts []string, srcDomains []string, cnt *
 		if r.URL != capped || r.URLLowerCase != strings.ToLower(capped) {
 			bad("lower-cased-capped-url", fmt.Sprintf("NewRequest(%q): URL/URLLowerCase are not the capped URL and its lower-casing", clip(u)), src)
 			break
+		}
+		if si <= 1 {
+			// the request type takes no part in any of the fields
+			for _, t := range []rules.RequestType{rules.TypeDocument, rules.TypeSubdocument, rules.TypeImage, rules.TypeOther, rules.TypeXmlhttprequest} {
+				rt := rules.NewRequest(u, src, t)
+				local++
+				if rt.Hostname != r.Hostname || rt.Domain != r.Domain || rt.SourceHostname != r.SourceHostname || rt.SourceDomain != r.SourceDomain || rt.ThirdParty != r.ThirdParty || rt.URLLowerCase != r.URLLowerCase || rt.RequestType != t {
+					bad("fields-independent-of-request-type", fmt.Sprintf("NewRequest(%q, %q, type %d): Hostname=%q Domain=%q SourceHostname=%q SourceDomain=%q ThirdParty=%v RequestType=%d; as a script request: %q %q %q %q %v", clip(u), src, t, rt.Hostname, rt.Domain, rt.SourceHostname, rt.SourceDomain, rt.ThirdParty, rt.RequestType, r.Hostname, r.Domain, r.SourceHostname, r.SourceDomain, r.ThirdParty), src)
+					break
+				}
+			}
+			if si == -1 && c17InContract(u) {
+				local++
+				if h := filterutil.ExtractHostname(u); !strings.EqualFold(h, wantHost) {
+					bad("hostname-equals-net-url", fmt.Sprintf("filterutil.ExtractHostname(%q) = %q, net/url gives %q", clip(u), h, wantHost), src)
+				}
+			}
 		}
 		if si >= 0 && wantHost != "" {
 			// symmetry: swap the roles of url and source
@@ -188,6 +206,14 @@ func init() {
 		hosts = append(hosts, "Example.COM", "WWW.Example.co.UK", "1.2.3.4", "127.0.0.1", "xn--e1afmkfd.xn--p1ai", "a-b.example.com", "a_b.example.com", "a.com.example.com", "x.co.uk.shop.co.uk", "a.b.a.b", "10.4.3.4",
 			"l5.l4.l3.l2.l1.example.com", "l7.l6.l5.l4.l3.l2.l1.example.co.uk", "l9.l8.l7.l6.l5.l4.l3.l2.l1.city.kobe.jp", "a.b.c.d.e.f.g.h.i.github.io", "a.b.c.d.e.f.g.local", "x9.x8.x7.x6.x5.x4.x3.x2.x1.www.ck",
 			"a.b.app.os.stg.fedoraproject.org", "img.shop.app.os.stg.fedoraproject.org", "shop.app.os.stg.fedoraproject.org")
+		// suffix families of every section of the Public Suffix List (infrastructure, two- and three-level
+		// country suffixes, wildcard and exception rules, private suffixes): the suffix itself, a name under it, a name below that
+		for _, suf := range []string{"arpa", "in-addr.arpa", "ip6.arpa", "home.arpa", "e164.arpa", "uri.arpa", "urn.arpa", "iris.arpa", "com.au", "co.nz", "com.br", "co.jp", "ne.jp", "k12.ca.us", "pvt.k12.ma.us", "cc.ny.us",
+			"gov.uk", "ac.uk", "sch.uk", "com.cn", "xn--55qx5d.cn", "edu.pl", "gov.pl", "tokyo.jp", "nom.br", "mm", "com.mm", "bd", "co.bd", "er", "fk", "kawasaki.jp", "city.kawasaki.jp", "nagoya.jp", "city.nagoya.jp",
+			"s3.amazonaws.com", "compute.amazonaws.com", "us-east-1.elb.amazonaws.com", "cloudfront.net", "herokuapp.com", "appspot.com", "web.app", "pages.dev", "netlify.app", "azurewebsites.net", "gitlab.io",
+			"dyndns.org", "blogspot.co.uk", "blogspot.com.au", "co.com", "uk.com", "us.com", "eu.org", "test", "example", "invalid", "localhost", "onion", "internal", "lan", "home", "corp"} {
+			hosts = append(hosts, suf, "a."+suf, "b.a."+suf)
+		}
 		exhaustive := true
 		var mu sync.Mutex
 		c.parallel(len(hosts), func(i int) {
@@ -233,6 +259,20 @@ func init() {
 				a.ThirdParty == b.ThirdParty && a.IsHostnameRequest == b.IsHostnameRequest
 		}
 		var reuseEvals int64
+		// a request object that was built for a URL, then filled for a host name
+		for _, h2 := range reuse {
+			for _, u := range []string{"https://" + h2 + "/ads/banner.js?q=1", "https://other.example.net/p", "wss://" + strings.ToUpper(h2) + ":8080/"} {
+				for _, src := range []string{"", "https://third.example.org/"} {
+					r := rules.NewRequest(u, src, rules.TypeScript)
+					rules.FillRequestForHostname(r, h2)
+					reuseEvals++
+					if !sameReq(*r, fresh[h2]) {
+						c.Run.Violate(ev.Violation{Pred: "refilled-request-equals-fresh", Sig: map[string]any{"first": u, "second": h2},
+							What: fmt.Sprintf("FillRequestForHostname(%q) on a request built by NewRequest(%q, %q): URL=%q URLLowerCase=%q Hostname=%q Domain=%q ThirdParty=%v IsHostnameRequest=%v type=%d; a fresh hostname request has URL=%q Domain=%q", h2, u, src, r.URL, r.URLLowerCase, r.Hostname, r.Domain, r.ThirdParty, r.IsHostnameRequest, r.RequestType, fresh[h2].URL, fresh[h2].Domain), Replay: map[string]any{"url": "http://" + h2}})
+					}
+				}
+			}
+		}
 		for _, h1 := range reuse {
 			for _, h2 := range reuse {
 				r := &rules.Request{}
